@@ -2,6 +2,7 @@
 //! Usage: vcheck <PROPERTY> --tier quick|thorough [--replay FILE]
 
 mod c01;
+mod c02;
 mod envs;
 mod explore;
 mod gen;
@@ -52,6 +53,7 @@ fn main() {
 		let v: serde_json::Value = serde_json::from_str(&text).expect("replay file is JSON");
 		let code = match prop.as_str() {
 			"C01" => c01::replay(&v),
+			"C02" => c02::replay(&v),
 			_ => {
 				eprintln!("no replay for {prop}");
 				2
@@ -62,6 +64,7 @@ fn main() {
 	let mut rep = report::Report::new(&prop, &tier);
 	match prop.as_str() {
 		"C01" => c01::run(&mut rep),
+		"C02" => c02::run(&mut rep),
 		_ => {
 			eprintln!("unknown property {prop}");
 			std::process::exit(2);
